@@ -87,14 +87,15 @@ Section MixedProofs.
   Qed.
 
   (* contents only grow, and inputs of the fired step do not change *)
-  Lemma cont_grows st i sp l a p : nth_error specs i = Some sp -> nth_error st i = Some l ->
-    ext_m T (cont st p) (cont (upd i (l ++ a) st) p).
+  Lemma cont_grows st i sp l j t p : nth_error specs i = Some sp -> nth_error st i = Some l ->
+    done sp l = false -> accept sp l j = true ->
+    ext_m T (cont st p) (cont (upd i (l ++ [(j, t)]) st) p).
   Proof.
-    intros Hsp Hl. destruct p as [k|s j]; simpl; [apply extm_refl|].
+    intros Hsp Hl Hnd Hacc. destruct p as [k|s jj]; simpl; [apply extm_refl|].
     destruct (nth_error specs s) as [sps|] eqn:Hs; [|apply extm_refl].
     destruct (Nat.eq_dec i s) as [->|Hne].
     - rewrite nth_error_upd_same by (eapply nth_error_Some_lt; eauto). rewrite Hl.
-      assert (sps = sp) by congruence. subst. destruct HC as [C1 _]. apply C1.
+      assert (sps = sp) by congruence. subst. destruct HC as [C1 _]. apply C1; auto.
     - rewrite nth_error_upd_other by auto. apply extm_refl.
   Qed.
 
@@ -135,7 +136,7 @@ Section MixedProofs.
       + rewrite Nat.add_0_r, app_nil_r. split; auto.
     - rewrite nth_error_upd_other in Hlk by auto.
       destruct (I _ _ _ _ _ Hspk Hlk Hp) as [I1 I2]. split; auto.
-      destruct (cont_grows st i sp l [(j0, tk)] p Hsp Hl) as [extra ->].
+      destruct (cont_grows st i sp l j0 tk p Hsp Hl Hnd Hacc) as [extra ->].
       rewrite firstn_ext; auto.
       assert (length (proj T j lk) = cnt T j lk) by apply cnt_proj.
       rewrite I1 in H. rewrite firstn_length in H. lia.
